@@ -1,12 +1,12 @@
 ------------------------------ MODULE MC_RelayDir ------------------------------
 EXTENDS RelayDir, IOUtils
 MCCallDef == ("a1" :> <<"A", "B">>) @@ ("a2" :> <<"A", "B">>) @@ ("b1" :> <<"B", "A">>) @@ ("c1" :> <<"A", "L">>) @@ ("d1" :> <<"B", "L">>)
-MCLDef == ("l1" :> "L") @@ ("l2" :> "L")
+MCLDef == ("l1" :> "L") @@ ("l2" :> "L") @@ ("l3" :> "L")
 MCPeerOrder == <<"A", "B", "L">>
 MCMut == IF IOEnv.MUT \in {"BugPtr", "BugWait", "BugListen"} THEN "" ELSE IOEnv.MUT
 MCBugPtr == IOEnv.MUT = "BugPtr"
 MCBugWait == IOEnv.MUT = "BugWait"
 MCBugListen == IOEnv.MUT = "BugListen"
-MCCall == IF IOEnv.MUT \in {"BugListen", "listensize", "wantleak"} THEN {"c1", "d1"} ELSE {"a1", "a2", "b1"}
-MCLCall == IF IOEnv.MUT \in {"BugListen", "listensize", "wantleak"} THEN {"l1", "l2"} ELSE {}
+MCCall == IF IOEnv.MUT = "lexitnonce" THEN {"c1"} ELSE IF IOEnv.MUT \in {"BugListen", "listensize", "wantleak"} THEN {"c1", "d1"} ELSE {"a1", "a2", "b1"}
+MCLCall == IF IOEnv.MUT = "lexitnonce" THEN {"l1", "l2", "l3"} ELSE IF IOEnv.MUT \in {"BugListen", "listensize", "wantleak"} THEN {"l1", "l2"} ELSE {}
 =============================================================================
